@@ -190,7 +190,7 @@ def run(ctx):
         if ga != gb and (ga or "").startswith("E:") and (gb or "").startswith("E:") and oa.get("status") == ob.get("status") == 1:
             continue        # both refused with a diagnosed error: which signature is named in it may differ
         if ga != gb or oa.get("status") != ob.get("status"):
-            ctx["report"].violation(dict(kind="lazy-vs-eager-next-to-a-float", op=a.split(" ")[1]),
+            ctx["report"].violation(dict(kind="lazy-vs-eager-next-to-a-float", op=(a.split(" ") + ["whole-number position"] * 2)[1]),
                                     "C05 fails on the implementation: %s gives %s but the eager %s gives %s" % (a, ga, b, gb),
                                     dict(text=a, eager_text=b, impl=ga, expected=gb))
     rep, tier, seed = ctx["report"], ctx["tier"], ctx["seed"]
